@@ -27,6 +27,20 @@ func mkJob(harness, setup string, kv ...string) *Job {
 
 func itoa(i int) string { return fmt.Sprint(i) }
 
+// paintStubs are the pure painting functions of the display engine. For properties that
+// do not read the screen they are replaced by no-ops (their output is discarded anyway);
+// Refresh itself, the cursor-position query, autocompletion and prompts still run.
+var paintStubs = []string{
+	"(*" + repoPath + "/internal/display.Engine).displayLine",
+	"(*" + repoPath + "/internal/display.Engine).displayMultilinePrompts",
+	repoPath + "/internal/core.CoordinatesCursor",
+	repoPath + "/internal/core.CoordinatesLine",
+	repoPath + "/internal/ui.DisplayHint",
+	repoPath + "/internal/ui.CoordinatesHint",
+	repoPath + "/internal/completion.Display",
+	repoPath + "/internal/completion.Coordinates",
+}
+
 func init() {
 	checks["C19"] = &CheckDef{
 		ID: "C19",
@@ -53,4 +67,30 @@ func init() {
 		Bounds: map[string]string{"quick": "sequence length n <= 2", "thorough": "sequence length n <= 3"},
 		Rule:   "one state per completed symbolic path; a path covers every rune assignment satisfying its path condition",
 	}
+}
+
+// evalStrings runs a concrete harness function returning []string.
+func evalStrings(p *Program, fn string) ([]string, error) {
+	m := NewMachine(p)
+	var out []string
+	var err error
+	func() {
+		defer func() {
+			if r := recover(); r != nil {
+				err = fmt.Errorf("%s", describePanic(m, r))
+			}
+		}()
+		m.spawn = func(WorkItem) { panic("symbolic decision in concrete evaluation") }
+		m.job = &Job{Params: map[string]string{}}
+		m.initAll()
+		f := p.lookupFunc(repoPath + fn)
+		if f == nil {
+			panic("no such function " + fn)
+		}
+		sl := m.callSSA(nil, f, nil, nil).(Slice)
+		for i := 0; i < sl.len; i++ {
+			out = append(out, sl.o.slots[sl.off+i].(Str).S)
+		}
+	}()
+	return out, err
 }
